@@ -106,7 +106,7 @@ def run_check(prop, tier, seed, replay=None):
     for prof in set(c.profile for c in sample):
         cs = [c for c in sample if c.profile == prof]
         try:
-            rk = run_model_in_kernel([c.line for c in cs], prof)
+            rk = run_model_in_kernel([c.model_line or c.line for c in cs], prof)
         except CheckError as e:
             kernel_bad.append(dict(line="(kernel run)", impl=None, model=str(e)[:300]))
             continue
